@@ -6,6 +6,7 @@ import (
 
 	"github.com/bluenviron/gohlslib/v2/pkg/codecs"
 	"github.com/bluenviron/mediacommon/v2/pkg/codecs/av1"
+	"github.com/bluenviron/mediacommon/v2/pkg/codecs/h265"
 	"github.com/bluenviron/mediacommon/v2/pkg/codecs/mpeg4audio"
 )
 
@@ -29,10 +30,28 @@ var c9H265SPS = []byte{
 
 var c9H265PPS = []byte{0x44, 0x01, 0xc0, 0x25, 0x2f, 0x05, 0x32, 0x40}
 
+// c9H265SPS2: a second, equally valid SPS (general_level_idc 4.1 -> 4.0; still no VUI timing info), so that H265
+// streams can change their parameter sets in-band (parameter id 2 of the muxer slice).
+var c9H265SPS2 = func() []byte {
+	raw := mvH265Unescape(c9H265SPS)
+	if raw[14] != 0x7b {
+		panic("c9H265SPS2: general_level_idc is not where it is expected")
+	}
+	raw[14] = 0x78
+	out := mvH265Escape(raw)
+	var s h265.SPS
+	if err := s.Unmarshal(out); err != nil || s.ProfileTierLevel.GeneralLevelIdc != 0x78 {
+		panic("c9H265SPS2: derived SPS does not parse")
+	}
+	return out
+}()
+
 // c9BuildH265: [VPS SPS PPS] IDR_W_RADL | TRAIL_R, two-byte NAL header, then the id bytes.
 func c9BuildH265(par int, ra bool, pay, fill int) [][]byte {
 	var au [][]byte
-	if par != 0 {
+	if par == 2 {
+		au = append(au, c9H265VPS, c9H265SPS2, c9H265PPS)
+	} else if par != 0 {
 		au = append(au, c9H265VPS, c9H265SPS, c9H265PPS)
 	}
 	if ra {
